@@ -166,7 +166,17 @@ DnsRequest::ReqId DnsRequest::request(const DomainName &domain, const Callback &
         return false;
     }
 
-    ReqId req_id = ++req_id_alloc_;
+    //! 0 表示无效ID；所有的ID都在查询中时拒绝
+    if (requests_.size() >= 0xffff) {
+        LogWarn("too many dns requests");
+        return 0;
+    }
+
+    //! 跳过 0 与仍在查询中的ID，否则会覆盖未完成的请求
+    ReqId req_id;
+    do {
+        req_id = ++req_id_alloc_;
+    } while (req_id == 0 || requests_.find(req_id) != requests_.end());
     std::vector<uint8_t> send_buff;
 
     util::Serializer dump(send_buff);
@@ -345,10 +355,11 @@ void DnsRequest::onUdpRecv(const void *data_ptr, size_t data_size, const SockAdd
     (void)from;
 }
 
-void DnsRequest::onRequestTimeout(ReqId req_id)
+void DnsRequest::onRequestTimeout(const TimeoutToken &token)
 {
+    ReqId req_id = token.req_id;
     auto req = findRequest(req_id);
-    if (req == nullptr)
+    if (req == nullptr || req->seq != token.seq)    //! 已结束，或该ID已被新的请求复用
         return;
 
     Result result;
@@ -368,9 +379,10 @@ void DnsRequest::addRequest(ReqId req_id, const Callback &cb)
 
     Request req;
     req.cb = cb;
+    req.seq = ++seq_alloc_;
 
     requests_[req_id] = req;
-    timeout_monitor_.add(req_id);
+    timeout_monitor_.add(TimeoutToken{req_id, req.seq});
 }
 
 DnsRequest::Request* DnsRequest::findRequest(ReqId req_id)
